@@ -107,7 +107,7 @@ def check_write(ctx: Ctx) -> None:
     ctx.note("call_sites_classified", n_calls)
     ctx.note("fs_effect_sites", [f"{fi.qual} :: {norm(c.func)} [{eff}]" for fi, n, c, eff in sites])
     atomic_sites = [(fi, n, c) for fi, n, c, eff in sites if eff in ("atomic-ctx", "atomic-wrapper")]
-    ctx.require("R-WRITE", "atomic write sites (with atomic_output_file)", len(atomic_sites), 2)
+    ctx.require("R-WRITE", "atomic write sites (with atomic_output_file)", len(atomic_sites), 1)
 
     # W1 who-may-write: every fs-mutating call is a write through the `as` target of an enclosing atomic context
     for fi, n, c, eff in sites:
@@ -133,7 +133,7 @@ def check_write(ctx: Ctx) -> None:
     rt_nodes = {n for n, c in flow.all_calls() if call_name(prog, rf, c) == "flowmark.reformat_api:reformat_text"}
     ctx.require("R-WRITE", "call to reformat_text in reformat_file", len(rt_nodes), 1)
     read_nodes = {n for n, c in flow.all_calls() if isinstance(c.func, ast.Attribute) and c.func.attr in ("read", "read_text", "read_bytes")}
-    ctx.require("R-WRITE", "read sites in reformat_file", len(read_nodes), 2)
+    ctx.require("R-WRITE", "read sites in reformat_file", len(read_nodes), 1)
     for fi, n, c in atomic_sites:
         if fi.qual != rf.qual:
             continue
@@ -377,7 +377,7 @@ def check_usage_errors(ctx: Ctx) -> None:
                 p = p or mflow.cfg.path_avoiding(cn, r, set())
             ctx.ob("R-USAGE", f"{main.qual} :: no-input return precedes the run", p is None,
                    "the no-input error is decided before anything is formatted", where(main, r))
-    ctx.require("R-USAGE", "error returns of main", n_ret, 4)
+    ctx.require("R-USAGE", "error returns of main", n_ret, 2)
     # the try around reformat_files catches ValueError (usage) and Exception (I/O), both mapped above
     handlers = []
     for cn in call_nodes:
